@@ -22,7 +22,9 @@ MODES = ['inst_func', 'bound', 'class', 'static',
          # methods whose first parameter is not a plain required one: self
          # swallowed by *args (a pass-through wrapper) or defaulted
          # (seed C17f)
-         'bound_starself', 'bound_defself', 'class_starself']
+         'bound_starself', 'bound_defself', 'class_starself',
+         # every positional parameter of the implementation positional-only
+         'bound_posonly']
 
 
 def configs(tier, seed):
@@ -139,6 +141,14 @@ def _grid_case(case, out):
              '\n' % ''.join(', ' + p for p in
                             [_sig_src(0, mo, mv, mk, 'm')] if p), ns)
         mfunc = ns['meth']
+    elif mode == 'bound_posonly':
+        parts = ['self'] + ['mr%d' % i for i in range(mr)] + \
+            ['mo%d=None' % i for i in range(mo)] + ['/']
+        if mv:
+            parts.append('*margs')
+        if mk:
+            parts.append('**mkw')
+        mfunc = _compile('meth', ', '.join(parts))
     else:
         mfunc = _compile('meth', _sig_src(mr, mo, mv, mk, 'm', with_self))
 
@@ -148,7 +158,8 @@ def _grid_case(case, out):
         cand.meth = mfunc
         callsig = inspect.signature(mfunc)
         verify = verifyObject
-    elif mode in ('bound', 'bound_starself', 'bound_defself'):
+    elif mode in ('bound', 'bound_starself', 'bound_defself',
+                  'bound_posonly'):
         cls = implementer(iface)(type('Cand', (), {'meth': mfunc}))
         cand = cls()
         callsig = inspect.signature(cand.meth)
